@@ -869,6 +869,135 @@ func init() {
 		Run: ruleSibExoticDefine})
 }
 
+func init() {
+	register(&Rule{ID: "SIB-extensible", Props: []string{"C07", "C16"}, Min: 5,
+		Doc: "P (sibling agreement over the [[DefineOwnProperty]] slot): 8.12.9 step 3 - a property the object does not have is created only if the object is extensible. The ordinary implementation tests object.extensible; every other function installed in the defineOwnProperty slot of a class table must, on each path to a successful return, either hand the definition to the ordinary implementation, or read the extensible flag (itself or in a helper it calls), or be one of the reviewed classes that cannot gain properties. A bridged Go map / slice otherwise keeps growing after Object.preventExtensions / seal / freeze",
+		Run: ruleSibExtensible})
+}
+
+var sibExtensibleReviewed = map[string]string{
+	"goStructDefineOwnProperty": "the path that does not delegate is taken only when goObj.getValue(name).IsValid(): the Go field exists, which is this class's [[GetOwnProperty]] answer, so nothing is created (8.12.9 step 3 concerns absent properties); absent names go to the ordinary implementation",
+	"stringDefineOwnProperty":   "the path that does not delegate is taken only for an existing index property (stringIndexValue reports isIndex for 0 <= i < length): nothing is created; other names go to the ordinary implementation",
+	"goArrayDefineOwnProperty":  "a Go array has a fixed length: setValue refuses every index outside it (returns false -> typeErrorResult), other names go to the ordinary implementation; no path creates a property",
+}
+
+func ruleSibExtensible(c *Ctx, r *R) {
+	impls := slotImplsOf(c)["defineOwnProperty"]
+	if len(impls) < 4 {
+		r.undecided("slot", "-", fmt.Sprintf("UNRESOLVED: %d implementations of the defineOwnProperty slot found", len(impls)))
+		return
+	}
+	// functions that read object.extensible, transitively through static calls (depth 3)
+	reads := map[*ssa.Function]bool{}
+	var readsExt func(fn *ssa.Function, d int) bool
+	readsExt = func(fn *ssa.Function, d int) bool {
+		if fn == nil || len(fn.Blocks) == 0 || d > 3 {
+			return false
+		}
+		if v, ok := reads[fn]; ok {
+			return v
+		}
+		reads[fn] = false
+		for _, b := range fn.Blocks {
+			for _, ins := range b.Instrs {
+				if u, ok := ins.(*ssa.UnOp); ok && u.Op == token.MUL && isFieldAddr(u.X, "object", "extensible") {
+					reads[fn] = true
+					return true
+				}
+			}
+		}
+		return false
+	}
+	for _, fn := range impls {
+		name := ssaFuncName(fn)
+		site := c.Pos(fn.Pos())
+		if fn.Name() == "objectDefineOwnProperty" {
+			r.check(readsExt(fn, 0), name, site, "the ordinary implementation reads object.extensible", "the ordinary [[DefineOwnProperty]] no longer reads object.extensible: non-extensible objects gain properties")
+			continue
+		}
+		if why, ok := sibExtensibleReviewed[fn.Name()]; ok {
+			r.ok("reviewed:"+name, site, why)
+			continue
+		}
+		// blocks that settle the question: a call of the ordinary implementation (or of another implementation of the
+		// slot), a read of extensible (here or in a callee), a refusal (typeErrorResult, panic)
+		cut := map[*ssa.BasicBlock]bool{}
+		for _, b := range fn.Blocks {
+			for _, ins := range b.Instrs {
+				switch x := ins.(type) {
+				case *ssa.UnOp:
+					if x.Op == token.MUL && isFieldAddr(x.X, "object", "extensible") {
+						cut[b] = true
+					}
+				case *ssa.Panic:
+					cut[b] = true
+				case ssa.CallInstruction:
+					callee := x.Common().StaticCallee()
+					if callee != nil && callee.Parent() == fn {
+						// a local refusal helper: a closure every return of which is the constant false (or that panics)
+						{
+							cl := callee
+							refuses := true
+							for _, cb := range cl.Blocks {
+								if ret, ok := cb.Instrs[len(cb.Instrs)-1].(*ssa.Return); ok {
+									k, isK := ret.Results[0].(*ssa.Const)
+									if !isK || k.Value == nil || k.Value.String() != "false" {
+										refuses = false
+									}
+								}
+							}
+							if refuses {
+								cut[b] = true
+							}
+						}
+						continue
+					}
+					if callee.Name() == "objectDefineOwnProperty" || callee.Name() == "typeErrorResult" || readsExt(callee, 1) {
+						cut[b] = true
+					}
+					for _, other := range impls {
+						if other == callee {
+							cut[b] = true
+						}
+					}
+				}
+			}
+		}
+		// a path from entry to a return of `true` (or any return) that meets no such block
+		var witness []string
+		seen := map[*ssa.BasicBlock]bool{}
+		var dfs func(b *ssa.BasicBlock, path []string) bool
+		dfs = func(b *ssa.BasicBlock, path []string) bool {
+			if seen[b] || cut[b] {
+				return false
+			}
+			seen[b] = true
+			path = append(path, fmt.Sprintf("%d(%s)", b.Index, b.Comment))
+			if ret, ok := b.Instrs[len(b.Instrs)-1].(*ssa.Return); ok {
+				// returning the constant false is a refusal
+				if len(ret.Results) == 1 {
+					if k, ok := ret.Results[0].(*ssa.Const); ok && k.Value != nil && k.Value.String() == "false" {
+						return false
+					}
+				}
+				witness = append([]string{}, path...)
+				return true
+			}
+			for _, s2 := range b.Succs {
+				if dfs(s2, path) {
+					return true
+				}
+			}
+			return false
+		}
+		if dfs(fn.Blocks[0], nil) {
+			r.bad(name, site, fmt.Sprintf("%s can return successfully (blocks %v) without handing the definition to the ordinary [[DefineOwnProperty]] and without reading object.extensible: an object of this class gains properties after Object.preventExtensions / seal / freeze (`Object.preventExtensions(goMap); goMap.k = 1` adds the key; `Object.freeze(goSlice); goSlice.push(1)` appends)", name, witness))
+		} else {
+			r.ok(name, site, "every successful path goes through the ordinary implementation, a read of object.extensible, or a refusal")
+		}
+	}
+}
+
 func ruleSibExoticDefine(c *Ctx, r *R) {
 	impls := slotImplsOf(c)
 	ordinary := map[string]string{"getOwnProperty": "objectGetOwnProperty", "defineOwnProperty": "objectDefineOwnProperty", "delete": "objectDelete"}
